@@ -289,6 +289,21 @@ WORKBOOKS = {
         texts={'B1': '=SUM(RNGONE)', 'C1': '=CELLONE+1'},
         ranges={'A1:A2': [['A1'], ['A2']]},
         extra_cells={'__names__': {'RNGONE': 'S!$A$1:$A$2', 'CELLONE': 'S!$A$1'}}),
+    # C01 "written references": precedents reached through the reference
+    # operators -- the intersection of two ranges (the model knows the formula
+    # by the rectangle it reads; the code's own nodes differ: spec drift)
+    'refops': dict(
+        inputs={'A1': 1, 'B1': 3, 'B2': 4},
+        formulas={'C1': ('SumR', 'B1:B2'), 'D1': ('Plus', ['C1'], 1)},
+        texts={'C1': '=SUM(A1:B2 B1:B2)'},
+        ranges={'B1:B2': [['B1'], ['B2']]}),
+    # C01: a range of more than 10 000 cells (the model knows the two cells
+    # which hold something; every other cell of the rectangle is blank)
+    'bigrange': dict(
+        inputs={'A1': 1, 'A2': 5},
+        formulas={'CX1': ('SumR', 'A1:A2'), 'CX2': ('Plus', ['CX1'], 1)},
+        texts={'CX1': '=SUM(A1:CV101)'},
+        ranges={'A1:A2': [['A1'], ['A2']]}),
     # C08: an input which is blank when the model is trimmed, read directly and
     # through a range
     'blankin': dict(
@@ -406,6 +421,14 @@ WORKBOOKS_OBS['beyond_obs'] = dict(
     ranges={'A1:A2': [['A1'], ['A2']], 'A1:C1': [['A1', 'B1', 'C1']],
             'E1:E2': [['E1'], ['E2']]},
     aliases={'A:A': 'A1:A2', '1:1': 'A1:C1', 'E:E': 'E1:E2'})
+
+# the same on a sheet which is not the active one: blank cells beyond the used
+# area of sheet T (T!A4 below, T!C1 right of the data) read first
+WORKBOOKS_OBS['beyond2_obs'] = dict(
+    inputs={'T!A1': 1, 'T!A2': 2, 'T!B1': 3, 'T!A4': None, 'T!C1': None, 'A1': 7},
+    formulas={'B1': ('SumR', 'T!A:A'), 'B2': ('Plus', ['A1', 'T!A1'], 1)},
+    ranges={'T!A1:A2': [['T!A1'], ['T!A2']], 'T!A1:B1': [['T!A1', 'T!B1']]},
+    aliases={'T!A:A': 'T!A1:A2', 'T!1:1': 'T!A1:B1'})
 
 # a sheet of one row: the unbounded column A:A is clipped to the single cell A1
 WORKBOOKS_OBS['onecell_obs'] = dict(
